@@ -517,6 +517,21 @@ impl LNode {
             g.generate(&self.key.pk, 0, 0);
             g
         });
+        if chain.social_stake_requirement > 0 && parent != [0; 32] {
+            // same call as Mempool::bundle_block; made on a copy of the wallet so that a block
+            // which is never added leaves the producer's wallet untouched
+            let mut w = self.wallet.read().await.clone();
+            let gp = cfg.get_consensus_config().unwrap().genesis_period;
+            let mut stx = w
+                .create_staking_transaction(
+                    chain.social_stake_requirement,
+                    chain.get_latest_unlocked_stake_block_id(),
+                    (chain.get_latest_block_id() + 1).saturating_sub(gp),
+                )
+                .map_err(|e| format!("staking tx: {}", e))?;
+            stx.generate(&self.key.pk, 0, 0);
+            map.insert(stx.signature, stx);
+        }
         Block::create(
             &mut map,
             parent,
